@@ -946,8 +946,11 @@ func (r *Raft) AppendEntries(request *AppendEntriesRequest, response *AppendEntr
 		r.logger.Fatalf("failed to append entries to log: %v", err)
 	}
 
-	if request.LeaderCommit > r.commitIndex {
-		r.commitIndex = numeric.Min(request.LeaderCommit, r.log.LastIndex())
+	// Only the entries up to the last entry covered by this request are known to match the
+	// leader's log. Entries beyond it may be left over from an earlier term and must not be committed.
+	lastVerifiedIndex := request.PrevLogIndex + uint64(len(request.Entries))
+	if commitIndex := numeric.Min(request.LeaderCommit, lastVerifiedIndex); commitIndex > r.commitIndex {
+		r.commitIndex = commitIndex
 		r.applyCond.Broadcast()
 	}
 
